@@ -812,6 +812,11 @@ public:
      */
     size_t realTime_currentDevice(size_t track);
 
+    /**
+     * @brief Put every track back on the first device (the state a song begins with)
+     */
+    void realTime_resetDevices();
+
 #if defined(ADLMIDI_AUDIO_TICK_HANDLER)
     // Audio rate tick handler
     void AudioTick(uint32_t chipId, uint32_t rate);
